@@ -117,7 +117,7 @@ harness! {
             }
             i += 1;
         }
-        t.increments(vec![b[0], b[1], b[2], b[3]]);
+        t.increments(crate::verif_env::kv(&[b[0], b[1], b[2], b[3]]));
         vassert!(t.estimate(k) >= n, "after a batch is applied the estimate is at least the number of recorded accesses");
         vassert!(t.w == 4, "every key of the batch is counted toward the aging period");
         vcover!(n == 4, "same key four times");
